@@ -26,6 +26,20 @@ impl Wide {
     }
 }
 
+/// A `Copy` asset whose size is neither a multiple of the word size nor below it (12 bytes).
+#[derive(Clone, Copy, PartialEq, Eq, Debug)]
+struct Tri([u32; 3]);
+
+impl Loader<Tri> for WideLoader {
+    fn load(content: Cow<[u8]>, _ext: &str) -> Result<Tri, BoxedError> {
+        Ok(Tri([parse_gen(&content)? as u32; 3]))
+    }
+}
+impl Asset for Tri {
+    const EXTENSION: &'static str = "tri";
+    type Loader = WideLoader;
+}
+
 /// An asset no larger than a machine word.
 #[derive(Clone, Copy, PartialEq, Eq, Debug)]
 struct Small(u32);
@@ -72,11 +86,13 @@ fn enhanced(rep: &mut Report, rng: &mut Rng, round: usize, readers: usize, reloa
     mem.write("n", "n0", b"load B b");
     mem.write("b", "wide", b"0");
     mem.write("b", "small", b"0");
+    mem.write("b", "tri", b"0");
     let cache: &'static AssetCache<Mem> = Box::leak(Box::new(AssetCache::with_source(mem.clone())));
     cache.enhance_hot_reloading();
     let h = cache.load::<Big>("b").expect("load big");
     let hw = cache.load::<Wide>("b").expect("load wide");
     let hs = cache.load::<Small>("b").expect("load small");
+    let ht = cache.load::<Tri>("b").expect("load tri");
     let hn = cache.load::<Node<0>>("n").expect("load node");
     let stop = AtomicBool::new(false);
     let stats: Vec<Mutex<ReaderStats>> = (0..readers).map(|_| Mutex::new(ReaderStats::default())).collect();
@@ -184,6 +200,14 @@ fn enhanced(rep: &mut Report, rng: &mut Rng, round: usize, readers: usize, reloa
                         }
                         // copies of a multi-word Copy value: `copied` / `cloned` never see a mixture
                         5 => {
+                            if st.reads % 3 == 2 {
+                                // 12-byte value: every field belongs to one generation
+                                let t = if st.reads % 2 == 0 { ht.copied() } else { *ht.read() };
+                                if t.0[1] != t.0[0] || t.0[2] != t.0[0] {
+                                    fail(&mut st, format!("torn 12-byte value (mixture of generations): {:?}", t.0));
+                                }
+                                continue;
+                            }
                             let w = if st.reads % 2 == 0 { hw.copied() } else { hw.cloned() };
                             match w.check() {
                                 Ok(g) => {
@@ -276,6 +300,8 @@ fn enhanced(rep: &mut Report, rng: &mut Rng, round: usize, readers: usize, reloa
             mem.write("b", "big", g.to_string().as_bytes());
             mem.write("b", "wide", g.to_string().as_bytes());
             mem.write("b", "small", g.to_string().as_bytes());
+            mem.write("b", "tri", g.to_string().as_bytes());
+            mem.notify_file("b", "tri");
             mem.notify_file("b", "big");
             mem.notify_file("b", "wide");
             mem.notify_file("b", "small");
@@ -318,6 +344,9 @@ fn enhanced(rep: &mut Report, rng: &mut Rng, round: usize, readers: usize, reloa
         }
     }
     rep.count("reads_that_saw_a_new_generation", transitions);
+    if ht.copied() != Tri([reloads as u32; 3]) && rep.inconclusive.is_empty() {
+        rep.violation("final-value", "C07/torn-read", json!({"what": "12-byte value after the last reload is a mixture or stale", "got": format!("{:?}", ht.copied()), "want": reloads}), scen.clone());
+    }
     // after the last barrier everybody sees the last generation
     if h.read().check() != Ok(reloads) && rep.inconclusive.is_empty() {
         rep.violation("final-value", "C07/final-value", json!({"got": format!("{:?}", h.read().check()), "want": reloads}), scen.clone());
